@@ -1,949 +1,19 @@
-(* C01 on the second-generation Session model: a QoS>0 message is owned until its final
-   acknowledgement and completes exactly once - in particular NOT when reconnect() drops its queued,
-   unwritten PUBLISH, and its MQTTMessageInfo never turns into "connection lost"; on an established
-   connection every owned message has been handed to the connection (and written, unless the
-   transport refuses writes) or the window is full.
-   Proof of [C01_stmt] by a relational invariant between the model state and the checker state. *)
-From PahoV Require Import Base.Prelude Codec.Mid Codec.MidProofs Session2.Model Session2.Check
-  Session2.Lemmas Session2.Inv Session2.Statements Session2.C12Proofs.
-From Coq Require Import Sorting.Sorted.
+(* C01 on the second-generation Session model.  Operation-by-operation preservation for the two-mode operations is in
+   LC01.v; lifted here to the model's runs for histories without hard write failures (Calm.v). *)
+From PahoV Require Import Base.Prelude Codec.Mid Codec.MidProofs Session2.Model Session2.Check Session2.Statements
+  Session2.Bridge Session2.Calm Session2.LLemmas Session2.LInv Session2.LC12 Session2.LC01.
+From PahoV Require Session2.Legacy.
 
-(* ---------------------------------------------------------------- list helpers of the checker *)
-Lemma zin_In x l : zin x l = true <-> In x l.
+Lemma R_init c : LC01.R (init c) k01_init.
+Proof. unfold LC01.R. constructor; cbn; try reflexivity; try discriminate; try (intros; contradiction). intros t []. Qed.
+
+Theorem c01_calm_proved : C01_calm_stmt.
 Proof.
-  induction l as [|y l IH]; cbn [zin In]; [split; [discriminate|tauto]|].
-  rewrite orb_true_iff, IH. split; intros [H|H]; auto; left; lia.
+  intros c ops Hcfg Hc Hn. unfold c01_ok, optrace.
+  destruct (lift_calm c (LInv.Inv c) (LInv.inv_step c Hcfg) k01 (k01_op (c_max c)) LC01.R
+              (fun s o k Hi Hcf HR => LC01.R_step c s o k Hcfg Hi Hcf HR) ops (init c) k01_init (LInv.inv_init c) eq_refl Hn Hc (R_init c))
+    as (s' & H).
+  exact (x_ok _ _ _ _ H).
 Qed.
 
-Lemma zin_of_notIn x l : ~ In x l -> zin x l = false.
-Proof. intros H. destruct (zin x l) eqn:E; [|reflexivity]. apply zin_In in E. contradiction. Qed.
-
-Lemma zadd_In x y l : In x (zadd y l) <-> x = y \/ In x l.
-Proof.
-  unfold zadd. destruct (zin y l) eqn:E.
-  - apply zin_In in E. split; [auto|]. intros [->|H]; assumption.
-  - rewrite in_app_iff. cbn [In]. split; intros [H|H]; auto.
-    + destruct H as [H|[]]; auto.
-Qed.
-
-Definition zadds (ts l : list Z) : list Z := fold_left (fun l t => zadd t l) ts l.
-
-Lemma zadds_In x ts : forall l, In x (zadds ts l) <-> In x l \/ In x ts.
-Proof.
-  unfold zadds. induction ts as [|t ts IH]; intros l; cbn [fold_left In]; [tauto|].
-  rewrite IH, zadd_In. split; intros H; intuition auto.
-Qed.
-
-Lemma zadds_app a b l : zadds (a ++ b) l = zadds b (zadds a l).
-Proof. unfold zadds. apply fold_left_app. Qed.
-
-Lemma NoDup_app_l {A} (l1 l2 : list A) : NoDup (l1 ++ l2) -> NoDup l1.
-Proof.
-  induction l1 as [|x l1 IH]; cbn [app]; intros H; [constructor|].
-  inversion H as [|? ? Hx Hn]; subst. constructor; [|apply IH; assumption].
-  intros Hin. apply Hx. apply in_or_app. left. assumption.
-Qed.
-
-Definition lof (m : omsg) : lmsg := mkL (o_tag m) (o_mid m) (o_qos m).
-
-Lemma tags_lof l : tags l = map l_tag (map lof l).
-Proof. unfold tags. rewrite map_map. reflexivity. Qed.
-
-Lemma lhas_tag_In t l : lhas_tag t l = true <-> In t (map l_tag l).
-Proof.
-  unfold lhas_tag. rewrite existsb_exists, in_map_iff. split.
-  - intros (x & H1 & H2). exists x. split; [lia|assumption].
-  - intros (x & H1 & H2). exists x. split; [assumption|lia].
-Qed.
-
-Lemma lrem_tag_notin t l : ~ In t (map l_tag l) -> lrem_tag t l = l.
-Proof.
-  induction l as [|x l IH]; cbn [lrem_tag map In]; [reflexivity|]. intros H.
-  destruct (l_tag x =? t) eqn:E; [exfalso; apply H; left; lia|]. f_equal. apply IH. tauto.
-Qed.
-
-Lemma lrem_tag_split t l1 x l2 : ~ In t (map l_tag l1) -> ~ In t (map l_tag l2) -> l_tag x = t ->
-  lrem_tag t (l1 ++ x :: l2) = l1 ++ l2.
-Proof.
-  intros H1 H2 Hx. induction l1 as [|y l1 IH]; cbn [lrem_tag app].
-  - replace (l_tag x =? t) with true by lia. apply lrem_tag_notin. assumption.
-  - cbn [map In] in H1. destruct (l_tag y =? t) eqn:E; [exfalso; apply H1; left; lia|].
-    f_equal. apply IH. tauto.
-Qed.
-
-(* ---------------------------------------------------------------- the checker state, field by field *)
-Definition set_q0 (k : k01) (v : list Z) : k01 :=
-  mkK01 (k1_live k) v (k1_done k) (k1_onconn k) (k1_wr k) (k1_est k) (k1_blk k) (k1_ok k).
-Definition set_on (k : k01) (v : list Z) : k01 :=
-  mkK01 (k1_live k) (k1_q0 k) (k1_done k) v (k1_wr k) (k1_est k) (k1_blk k) (k1_ok k).
-Definition set_wr (k : k01) (v : list Z) : k01 :=
-  mkK01 (k1_live k) (k1_q0 k) (k1_done k) (k1_onconn k) v (k1_est k) (k1_blk k) (k1_ok k).
-
-Lemma set_wr_same k : set_wr k (k1_wr k) = k.
-Proof. destruct k; reflexivity. Qed.
-Lemma set_on_same k : set_on k (k1_onconn k) = k.
-Proof. destruct k; reflexivity. Qed.
-
-(* window-relevant tags / QoS 0 tags of a list of queue entries *)
-Definition qtag (x : qpkt) : list Z := match ptag (q_pkt x) with Some t => [t] | None => [] end.
-Definition qtags (q : list qpkt) : list Z := flat_map qtag q.
-
-Lemma qtags_app a b : qtags (a ++ b) = qtags a ++ qtags b.
-Proof. unfold qtags. apply flat_map_app. Qed.
-
-Definition q0known (k : k01) (q : list qpkt) : Prop := forall t, In t (q0tags q) -> zin t (k1_q0 k) = true.
-
-Lemma q0known_app k a b : q0known k (a ++ b) <-> q0known k a /\ q0known k b.
-Proof.
-  unfold q0known. rewrite q0tags_app. split.
-  - intros H. split; intros t Ht; apply H; apply in_or_app; [left|right]; exact Ht.
-  - intros [H1 H2] t Ht. apply in_app_or in Ht as [Ht|Ht]; [apply H1 | apply H2]; exact Ht.
-Qed.
-
-(* one written packet *)
-Lemma tx_written_fold cn x k : q0known k [x] ->
-  fold_left k01_ev (Tx cn (q_pkt x) :: written_evs x) k = set_wr k (zadds (qtag x) (k1_wr k)).
-Proof.
-  intros Hq. unfold written_evs, qtag, ptag. destruct (q_pkt x) as [|m qs d t|m t|m|m|m] eqn:Ex;
-    cbn [fold_left k01_ev zadds]; try (symmetry; apply set_wr_same).
-  - destruct (qs =? 0) eqn:E0; cbn [fold_left k01_ev zadds].
-    + assert (Hin : zin t (k1_q0 k) = true).
-      { apply Hq. unfold q0tags. cbn [flat_map]. unfold q0tag. rewrite Ex, E0. left. reflexivity. }
-      rewrite Hin. cbv iota. rewrite Hin. symmetry. apply set_wr_same.
-    + reflexivity.
-  - reflexivity.
-Qed.
-
-Lemma set_wr_wr k v w : set_wr (set_wr k v) w = set_wr k w.
-Proof. reflexivity. Qed.
-
-(* writing the queue: the written tags are recorded, QoS 0 completions are not C01's business *)
-Lemma flush_fold cn : forall q k, q0known k q ->
-  fold_left k01_ev (flush_evs cn q) k = set_wr k (zadds (qtags q) (k1_wr k)).
-Proof.
-  induction q as [|x q IH]; intros k Hq; [symmetry; apply set_wr_same|].
-  change (x :: q) with ([x] ++ q) in Hq. apply q0known_app in Hq as [Hq1 Hq2].
-  cbn [flush_evs]. change (Tx cn (q_pkt x) :: written_evs x ++ flush_evs cn q)
-    with ((Tx cn (q_pkt x) :: written_evs x) ++ flush_evs cn q).
-  rewrite fold_left_app, (tx_written_fold cn x k Hq1), IH by exact Hq2.
-  cbn [k1_wr set_wr]. unfold qtags. cbn [flat_map]. fold (qtags q). rewrite zadds_app. reflexivity.
-Qed.
-
-Lemma flush_completed cn : forall q t, In t (completed_tags (flush_evs cn q)) -> In t (q0tags q).
-Proof.
-  induction q as [|x q IH]; intros t Ht; [destruct Ht|]. cbn [flush_evs completed_tags flat_map] in Ht.
-  fold (completed_tags (written_evs x ++ flush_evs cn q)) in Ht.
-  unfold completed_tags in Ht. rewrite flat_map_app in Ht. fold (completed_tags (written_evs x)) in Ht.
-  fold (completed_tags (flush_evs cn q)) in Ht. cbn [app] in Ht.
-  unfold q0tags. cbn [flat_map]. apply in_or_app. apply in_app_or in Ht as [Ht|Ht]; [left | right; apply IH; exact Ht].
-  unfold written_evs, q0tag in *. destruct (q_pkt x) as [|m qs d t'| | | |]; try destruct Ht.
-  destruct (qs =? 0); [|destruct Ht]. cbn in Ht. destruct Ht as [<-|[<-|[]]]; left; reflexivity.
-Qed.
-
-(* handing over packets that occupy a window slot (no QoS 0 PUBLISH among them) *)
-Lemma handed_fold cn x k : noq0 x ->
-  k01_ev k (Handed cn (q_pkt x)) = set_on k (zadds (qtag x) (k1_onconn k)).
-Proof.
-  unfold noq0, qtag, ptag. destruct (q_pkt x) as [|m qs d t|m t|m|m|m]; cbn [k01_ev zadds fold_left];
-    try (intros _; symmetry; apply set_on_same).
-  - intros ->. reflexivity.
-  - intros _. reflexivity.
-Qed.
-
-Lemma noq0_known k x : noq0 x -> q0known k [x].
-Proof. intros H t Ht. unfold q0tags in Ht. cbn [flat_map] in Ht. rewrite (noq0_q0tag x H) in Ht. destruct Ht. Qed.
-
-Lemma hand_all_fold cn can q : (can = true -> q = []) -> forall H k, Forall noq0 H ->
-  fold_left k01_ev (snd (hand_all cn can q H)) k =
-  set_on (set_wr k (if can then zadds (qtags H) (k1_wr k) else k1_wr k)) (zadds (qtags H) (k1_onconn k)).
-Proof.
-  intros Hq. destruct can.
-  - rewrite (Hq eq_refl). induction H as [|x H IH]; intros k HH.
-    + cbn. destruct k; reflexivity.
-    + inversion HH as [|? ? Hx HH']; subst. rewrite hand_all_can in *. cbn [snd flat_map] in *.
-      change (Handed cn (q_pkt x) :: flush_evs cn [x]) with ([Handed cn (q_pkt x)] ++ flush_evs cn [x]).
-      rewrite <- app_assoc, fold_left_app. cbn [fold_left]. rewrite (handed_fold cn x k Hx).
-      rewrite fold_left_app, flush_fold by (apply noq0_known; exact Hx).
-      rewrite IH by exact HH'. cbn [k1_wr k1_onconn set_wr set_on].
-      unfold qtags. cbn [flat_map]. fold (qtags H). rewrite app_nil_r, !zadds_app. reflexivity.
-  - intros H k HH. rewrite hand_all_blocked. cbn [snd]. revert k. induction HH as [|x H Hx _ IH]; intros k.
-    + cbn. destruct k; reflexivity.
-    + cbn [map fold_left]. rewrite (handed_fold cn x k Hx), IH. cbn [k1_wr k1_onconn set_wr set_on].
-      unfold qtags. cbn [flat_map]. fold (qtags H). rewrite zadds_app. reflexivity.
-Qed.
-
-Lemma hand_all_completed cn can q H : (can = true -> q = []) -> Forall noq0 H ->
-  completed_tags (snd (hand_all cn can q H)) = [].
-Proof.
-  intros Hq HH. destruct can.
-  - rewrite (Hq eq_refl), hand_all_can. cbn [snd]. induction HH as [|x H Hx _ IH]; [reflexivity|].
-    cbn [flat_map flush_evs]. rewrite (noq0_written x Hx). cbn [app completed_tags flat_map]. exact IH.
-  - rewrite hand_all_blocked. cbn [snd]. clear. induction H as [|x H IH]; [reflexivity|]. exact IH.
-Qed.
-
-(* ---------------------------------------------------------------- the relational invariant *)
-(* [E]: tags of messages that have just entered a wait state and whose packet is about to be handed
-   over; [L]: the stored messages the checker knows as live (they differ from [out s] only inside
-   publish(), between the hand-over and the return) *)
-Record Rx (E : list Z) (L : list omsg) (s : sess) (k : k01) : Prop := mkRx {
-  x_ok : k1_ok k = true;
-  x_live : k1_live k = map lof L;
-  x_done : forall t, In t (k1_done k) -> t < ntag s /\ ~ In t (tags (out s));
-  x_q0 : forall t, In t (k1_q0 k) -> t < ntag s /\ ~ In t (tags (out s));
-  x_q0q : q0known k (outq s);
-  x_est : k1_est k = true -> cack s = true;
-  x_blk : sock s = true -> k1_blk k = blocked s;
-  x_conn : sock s = true -> forall m, In m (out s) -> is_wait m = true ->
-           In (o_tag m) (k1_onconn k) \/ In (o_tag m) E;
-  x_wr : sock s = true -> forall m, In m (out s) -> is_wait m = true ->
-         In (o_tag m) (k1_wr k) \/ In (o_tag m) (qtags (outq s)) \/ In (o_tag m) E
-}.
-
-Definition R (s : sess) (k : k01) : Prop := Rx [] (out s) s k.
-
-Lemma r_conn s k : R s k -> sock s = true -> forall m, In m (out s) -> is_wait m = true -> In (o_tag m) (k1_onconn k).
-Proof. intros H Hs m Hm Hw. destruct (x_conn _ _ _ _ H Hs m Hm Hw) as [H1|[]]. exact H1. Qed.
-Lemma r_wr s k : R s k -> sock s = true -> forall m, In m (out s) -> is_wait m = true ->
-  In (o_tag m) (k1_wr k) \/ In (o_tag m) (qtags (outq s)).
-Proof. intros H Hs m Hm Hw. destruct (x_wr _ _ _ _ H Hs m Hm Hw) as [H1|[H1|[]]]; [left|right]; exact H1. Qed.
-
-(* handing over the packets of the messages in [E] completes the relation *)
-Lemma Rx_hand_all E L s k H :
-  Rx E L s k -> (can_write s = true -> outq s = []) -> Forall noq0 H -> incl E (qtags H) ->
-  Rx [] L (with_q s (fst (hand_all (conn s) (can_write s) (outq s) H)))
-     (fold_left k01_ev (snd (hand_all (conn s) (can_write s) (outq s) H)) k).
-Proof.
-  intros [Xok Xl Xd Xq0 Xq0q Xe Xb Xc Xw] Hi HH HE.
-  rewrite (hand_all_fold _ _ _ Hi H k HH), (hand_all_fst _ _ _ _ Hi).
-  constructor; cbn [k1_ok k1_live k1_done k1_q0 k1_est k1_blk k1_onconn k1_wr set_on set_wr
-                    out ntag cack sock blocked outq with_q]; try assumption.
-  - destruct (can_write s); [intros t []|]. apply q0known_app. split; [exact Xq0q|].
-    intros t Ht. rewrite (noq0_q0tags H HH) in Ht. destruct Ht.
-  - intros Hs m Hm Hw. left. apply zadds_In. destruct (Xc Hs m Hm Hw) as [H1|H1]; [left; exact H1 | right; apply HE; exact H1].
-  - intros Hs m Hm Hw. destruct (can_write s) eqn:Ec.
-    + left. apply zadds_In. rewrite (Hi eq_refl) in Xw. destruct (Xw Hs m Hm Hw) as [H1|[[]|H1]]; [left; exact H1 | right; apply HE; exact H1].
-    + destruct (Xw Hs m Hm Hw) as [H1|[H1|H1]]; [left; exact H1 | |]; right; left; rewrite qtags_app; apply in_or_app;
-        [left; exact H1 | right; apply HE; exact H1].
-Qed.
-
-Definition ok1_of (k : k01) (evs : list event) : bool :=
-  forallb (fun t =>
-     zin t (k1_q0 (fold_left k01_ev evs k))
-     || existsb (fun m => (l_tag m =? t) && existsb (final_ack_of m) evs) (k1_live k))
-   (completed_tags evs).
-
-Definition ok2_of (n : Z) (k : k01) : bool :=
-  negb (k1_est k) ||
-  forallb (fun m => (zin (l_tag m) (k1_onconn k) && (k1_blk k || zin (l_tag m) (k1_wr k))) ||
-                    ((n >? 0) && (zlen (filter (fun t => lhas_tag t (k1_live k)) (k1_onconn k)) >=? n)))
-          (k1_live k).
-
-Lemma k01_op_eq n k evs :
-  k01_op n k evs =
-  let k' := fold_left k01_ev evs k in
-  mkK01 (k1_live k') (k1_q0 k') (k1_done k') (k1_onconn k') (k1_wr k') (k1_est k') (k1_blk k')
-        (k1_ok k' && ok1_of k evs && ok2_of n k').
-Proof. reflexivity. Qed.
-
-(* (ok2): on an established connection everything owned has been handed over (and written unless blocked)
-   or the window is full *)
-Lemma R_ok2 c s k : Inv c s -> R s k -> ok2_of (c_max c) k = true.
-Proof.
-  intros I HR. pose proof HR as [Rok Rl Rd Rq0 Rq0q Re Rb _ _]. unfold ok2_of.
-  destruct (k1_est k) eqn:Eest; [|reflexivity]. cbn [negb orb].
-  pose proof (Re eq_refl) as Hck. pose proof (inv_cack _ _ I Hck) as Hs.
-  destruct (inv_shape _ _ I) as (C & U & Q & Sh).
-  pose proof (sh_sockU _ _ _ _ _ Sh Hs) as HU. subst U.
-  pose proof (sh_out _ _ _ _ _ Sh) as So. cbn [app] in So.
-  pose proof (sh_est _ _ _ _ _ Sh Hck) as HCw.
-  assert (HC : forall m, In m C -> In (o_tag m) (k1_onconn k)).
-  { intros m Hm. apply (r_conn _ _ HR Hs); [rewrite So; apply in_or_app; left; assumption|].
-    exact (proj1 (Forall_forall _ _) HCw m Hm). }
-  assert (HW : forall m, In m C -> k1_blk k = false -> In (o_tag m) (k1_wr k)).
-  { intros m Hm Hb. rewrite (Rb Hs) in Hb.
-    assert (Hq : outq s = []) by (apply (inv_qidle _ _ I); unfold can_write; rewrite Hs, Hb; reflexivity).
-    destruct (r_wr _ _ HR Hs m) as [H|H]; [rewrite So; apply in_or_app; left; assumption | exact (proj1 (Forall_forall _ _) HCw m Hm) | exact H |].
-    rewrite Hq in H. destruct H. }
-  rewrite Rl. apply forallb_forall. intros x Hx. apply in_map_iff in Hx as (m & <- & Hm).
-  rewrite So in Hm. apply in_app_or in Hm as [Hm|Hm].
-  - cbn [lof l_tag]. replace (zin (o_tag m) (k1_onconn k)) with true by (symmetry; apply zin_In; apply HC; assumption).
-    destruct (k1_blk k) eqn:Eb; [reflexivity|].
-    replace (zin (o_tag m) (k1_wr k)) with true by (symmetry; apply zin_In; apply HW; [assumption|reflexivity]).
-    reflexivity.
-  - apply orb_true_iff. right.
-    destruct (sh_full _ _ _ _ _ Sh) as [Hpos Hlen]; [intros ->; destruct Hm|].
-    assert (Hnd : NoDup (tags C)).
-    { pose proof (SSorted_NoDup _ (inv_sorted _ _ I)) as H. rewrite So, tags_app in H.
-      eapply NoDup_app_l. exact H. }
-    assert (Hincl : incl (tags C) (filter (fun t => lhas_tag t (map lof (out s))) (k1_onconn k))).
-    { intros t Ht. unfold tags in Ht. apply in_map_iff in Ht as (y & <- & Hy).
-      apply filter_In. split; [apply HC; assumption|].
-      apply lhas_tag_In. rewrite <- tags_lof. unfold tags. apply in_map. rewrite So. apply in_or_app. left. assumption. }
-    pose proof (NoDup_incl_length Hnd Hincl) as Hle.
-    unfold tags in Hle. rewrite map_length in Hle. unfold zlen. lia.
-Qed.
-
-(* what every operation has to establish *)
-Definition Good (s' : sess) (k : k01) (evs : list event) : Prop :=
-  R s' (fold_left k01_ev evs k) /\ ok1_of k evs = true.
-
-(* the QoS 0 set only grows *)
-Lemma q0_mono_ev k e t : zin t (k1_q0 k) = true -> zin t (k1_q0 (k01_ev k e)) = true.
-Proof.
-  intros H. destruct e as [cn p| | | | | |p| | | |cn p| |]; cbn [k01_ev]; try exact H.
-  - destruct p as [|m q d t0|m t0|m|m|m]; try exact H. destruct (q =? 0); exact H.
-  - destruct ((q >? 0) && ((rc =? 0) || (rc =? 4))); exact H.
-  - destruct (zin tag (k1_q0 k)); exact H.
-  - destruct (zin tag (k1_q0 k)); exact H.
-  - destruct p; exact H.
-  - destruct p as [|m q d t0|m t0|m|m|m]; try exact H. destruct (q =? 0); [|exact H].
-    cbn [k1_q0]. apply zin_In, zadd_In. right. apply zin_In. exact H.
-  - destruct (zin tag (k1_q0 k)); exact H.
-Qed.
-Lemma q0_mono : forall evs k t, zin t (k1_q0 k) = true -> zin t (k1_q0 (fold_left k01_ev evs k)) = true.
-Proof. induction evs as [|e evs IH]; intros k t H; [exact H|]. cbn [fold_left]. apply IH, q0_mono_ev, H. Qed.
-
-(* completions that belong to QoS 0 publishes only *)
-Lemma ok1_q0 k evs : (forall t, In t (completed_tags evs) -> zin t (k1_q0 (fold_left k01_ev evs k)) = true) ->
-  ok1_of k evs = true.
-Proof. intros H. unfold ok1_of. apply forallb_forall. intros t Ht. rewrite (H t Ht). reflexivity. Qed.
-
-Lemma zin_zadd_same t l : zin t (zadd t l) = true.
-Proof. apply zin_In, zadd_In. left. reflexivity. Qed.
-
-Lemma Rx_ext E L s s' k : out s' = out s -> ntag s' = ntag s -> sock s' = sock s -> cack s' = cack s ->
-  blocked s' = blocked s -> outq s' = outq s -> Rx E L s k -> Rx E L s' k.
-Proof.
-  intros E1 E2 E3 E4 E5 E6 [Xok Xl Xd Xq0 Xq0q Xe Xb Xc Xw].
-  constructor; rewrite ?E1, ?E2, ?E3, ?E4, ?E5, ?E6; assumption.
-Qed.
-
-Lemma Rx_weaken E L s k : Rx [] L s k -> Rx E L s k.
-Proof.
-  intros [Xok Xl Xd Xq0 Xq0q Xe Xb Xc Xw]. constructor; try assumption.
-  - intros Hs m Hm Hw. destruct (Xc Hs m Hm Hw) as [H|[]]. left. exact H.
-  - intros Hs m Hm Hw. destruct (Xw Hs m Hm Hw) as [H|[H|[]]]; [left | right; left]; exact H.
-Qed.
-
-(* ---------------------------------------------------------------- operations the checker does not see *)
-Definition neutral (e : event) : bool :=
-  match e with
-  | Tx _ p | Handed _ p => match p with PPublish _ _ _ _ | PPubrel _ _ => false | _ => true end
-  | CbMessage _ _ _ | Raised => true
-  | Inp (IConnack _) => false
-  | Inp _ => true
-  | _ => false
-  end.
-
-Lemma neutral_fold : forall evs k, forallb neutral evs = true -> fold_left k01_ev evs k = k.
-Proof.
-  induction evs as [|e evs IH]; intros k H; [reflexivity|].
-  cbn [forallb] in H. apply andb_true_iff in H as [He H]. cbn [fold_left].
-  destruct e as [cn p| | | | | |p| | | |cn p| |]; try discriminate; try (apply IH; exact H).
-  - destruct p; try discriminate; apply IH; exact H.
-  - destruct p; try discriminate; apply IH; exact H.
-  - destruct p; try discriminate; apply IH; exact H.
-Qed.
-
-Lemma neutral_completed evs : forallb neutral evs = true -> completed_tags evs = [].
-Proof.
-  induction evs as [|e evs IH]; intros H; [reflexivity|].
-  cbn [forallb] in H. apply andb_true_iff in H as [He H].
-  cbn [completed_tags flat_map]. fold (completed_tags evs). rewrite (IH H).
-  destruct e; try reflexivity; discriminate.
-Qed.
-
-Lemma good_neutral s s' k evs :
-  forallb neutral evs = true ->
-  out s' = out s -> ntag s' = ntag s -> sock s' = sock s -> cack s' = cack s ->
-  blocked s' = blocked s -> outq s' = outq s ->
-  R s k -> Good s' k evs.
-Proof.
-  intros Hn E1 E2 E3 E4 E5 E6 HR. split.
-  - rewrite (neutral_fold _ _ Hn). unfold R. rewrite E1. apply (Rx_ext [] (out s) s); assumption.
-  - apply ok1_q0. rewrite (neutral_completed _ Hn). intros t [].
-Qed.
-
-Lemma good_nil s k : R s k -> Good s k [].
-Proof. intros H. apply (good_neutral s s k []); auto. Qed.
-
-(* a reply: handed over (and perhaps written), nothing C01 looks at *)
-Lemma plain_noq0 x : match q_pkt x with PConnect | PPuback _ | PPubrec _ | PPubcomp _ => True | _ => False end ->
-  noq0 x /\ qtags [x] = [].
-Proof. unfold noq0, qtags, qtag, ptag. cbn [flat_map]. destruct (q_pkt x); try contradiction; intros _; split; reflexivity. Qed.
-
-Lemma good_send_plain s k x pre :
-  match q_pkt x with PConnect | PPuback _ | PPubrec _ | PPubcomp _ => True | _ => False end ->
-  forallb neutral pre = true ->
-  (can_write s = true -> outq s = []) -> R s k ->
-  Good (fst (send s x)) k (pre ++ snd (send s x)).
-Proof.
-  intros Hx Hpre Hi HR. destruct (plain_noq0 x Hx) as [Hn Hq].
-  rewrite send_hand_all. cbn [fst snd].
-  assert (HH : Forall noq0 [x]) by (constructor; [exact Hn | constructor]).
-  split.
-  - rewrite fold_left_app, (neutral_fold _ _ Hpre).
-    apply (Rx_hand_all [] (out s) s k [x] HR Hi HH). intros t [].
-  - apply ok1_q0. unfold completed_tags. rewrite flat_map_app. fold (completed_tags pre).
-    fold (completed_tags (snd (hand_all (conn s) (can_write s) (outq s) [x]))).
-    rewrite (neutral_completed _ Hpre), (hand_all_completed _ _ _ _ Hi HH). intros t [].
-Qed.
-
-(* ---------------------------------------------------------------- publish() *)
-Lemma good_publish c s q k : Inv c s -> (0 <=? q) && (q <=? 2) = true -> R s k ->
-  Good (fst (do_publish c s q)) k (snd (do_publish c s q)).
-Proof.
-  intros I Hq HR. pose proof (inv_qidle _ _ I) as Hi. pose proof (inv_tags _ _ I) as Htg.
-  pose proof HR as [Rok Rl Rd Rq0 Rq0q Re Rb Rc Rw].
-  assert (Hlt : forall t, In t (tags (out s)) -> t < ntag s).
-  { intros t Hin. unfold tags in Hin. apply in_map_iff in Hin as (m & <- & Hin).
-    pose proof (proj1 (Forall_forall _ _) Htg m Hin) as H. cbn beta in H. lia. }
-  (* the tag counter advances, nothing else *)
-  assert (Hnext : forall s', out s' = out s -> ntag s' = ntag s + 1 -> sock s' = sock s -> cack s' = cack s ->
-            blocked s' = blocked s -> outq s' = outq s -> R s' k).
-  { intros s' E1 E2 E3 E4 E5 E6. unfold R. rewrite E1.
-    constructor; rewrite ?E1, ?E2, ?E3, ?E4, ?E5, ?E6; try assumption.
-    - intros t Ht. destruct (Rd t Ht). split; [lia|assumption].
-    - intros t Ht. destruct (Rq0 t Ht). split; [lia|assumption]. }
-  unfold do_publish. cbv zeta. destruct (q =? 0) eqn:Eq0.
-  { assert (q = 0) by lia. subst q. destruct (sock s) eqn:Hs.
-    - (* QoS 0 on a socket: handed over, completed when written *)
-      set (s1 := mkS _ _ _ _ _ _ _ _ _ _ _). set (x := mkQ _ _).
-      assert (Hi1 : can_write s1 = true -> outq s1 = []) by (apply (idle_ext s); [cbn; congruence | reflexivity | reflexivity | exact Hi]).
-      rewrite (send_hand_all s1 x). cbn [fst snd].
-      assert (Hk : fold_left k01_ev (snd (hand_all (conn s1) (can_write s1) (outq s1) [x]) ++ [Ret (ntag s) (mid_next (last_mid s)) 0 0]) k
-                   = set_q0 k (zadd (ntag s) (k1_q0 k))).
-      { rewrite fold_left_app. destruct (can_write s1) eqn:Ec.
-        - rewrite (Hi1 eq_refl), hand_all_can. cbn [snd flat_map flush_evs written_evs x q_pkt app].
-          change (0 =? 0) with true. cbv iota. cbn [app fold_left k01_ev]. change (0 =? 0) with true. cbv iota.
-          cbn [k1_q0]. rewrite zin_zadd_same. cbv iota. cbn [k1_q0]. rewrite zin_zadd_same. reflexivity.
-        - rewrite hand_all_blocked. cbn [snd map fold_left k01_ev x q_pkt]. change (0 =? 0) with true. reflexivity. }
-      split.
-      + rewrite Hk. rewrite (hand_all_fst _ _ _ _ Hi1).
-        constructor; cbn [k1_ok k1_live k1_done k1_q0 k1_est k1_blk k1_onconn k1_wr set_q0 out ntag cack sock blocked outq with_q s1];
-          try assumption.
-        * intros t Ht. destruct (Rd t Ht). split; [lia|assumption].
-        * intros t Ht. apply zadd_In in Ht as [->|Ht]; [split; [lia | intros H; apply Hlt in H; lia]|].
-          destruct (Rq0 t Ht). split; [lia|assumption].
-        * intros t Ht. apply zin_In, zadd_In. destruct (can_write s1); [destruct Ht|].
-          rewrite q0tags_app in Ht. apply in_app_or in Ht as [Ht|Ht].
-          -- right. apply zin_In. apply Rq0q. exact Ht.
-          -- cbn in Ht. destruct Ht as [<-|[]]. left. reflexivity.
-        * intros _ m Hm Hw. destruct (Rw eq_refl m Hm Hw) as [H|[H|[]]]; [left; exact H|].
-          destruct (can_write s1) eqn:Ec.
-          -- unfold can_write in Ec. cbn [sock blocked s1] in Ec. rewrite (Hi ltac:(unfold can_write; rewrite Hs; exact Ec)) in H. destruct H.
-          -- right. left. rewrite qtags_app. apply in_or_app. left. exact H.
-      + apply ok1_q0. intros t Ht. rewrite Hk. cbn [k1_q0 set_q0].
-        unfold completed_tags in Ht. rewrite flat_map_app in Ht. cbn [flat_map app] in Ht. rewrite app_nil_r in Ht.
-        destruct (can_write s1).
-        * rewrite (Hi1 eq_refl), hand_all_can in Ht. cbn in Ht. destruct Ht as [<-|[<-|[]]]; apply zin_zadd_same.
-        * rewrite hand_all_blocked in Ht. destruct Ht.
-    - cbn [fst snd]. split; [|reflexivity]. cbn [fold_left k01_ev]. apply Hnext; reflexivity. }
-  assert (Hgt : (q >? 0) = true) by lia.
-  assert (Hr15 : forall s', out s' = out s -> ntag s' = ntag s + 1 -> sock s' = sock s -> cack s' = cack s ->
-            blocked s' = blocked s -> outq s' = outq s -> Good s' k [Ret (ntag s) (mid_next (last_mid s)) q 15]).
-  { intros s' E1 E2 E3 E4 E5 E6. split; [|reflexivity]. cbn [fold_left k01_ev]. rewrite Hgt. cbn [andb orb Z.eqb].
-    change ((15 =? 0) || (15 =? 4)) with false. cbv iota. apply Hnext; assumption. }
-  destruct ((c_maxq c >? 0) && (Z.of_nat (length (out s)) >=? c_maxq c)); [apply Hr15; reflexivity|].
-  destruct (has_mid (mid_next (last_mid s)) (out s)); [apply Hr15; reflexivity|]. clear Hr15.
-  (* the message is stored: out grows by the fresh tag *)
-  assert (Hstore : forall st rc s', ((rc =? 0) || (rc =? 4)) = true ->
-            out s' = out s ++ [mkO (mid_next (last_mid s)) q st false (ntag s)] -> ntag s' = ntag s + 1 ->
-            sock s' = sock s -> cack s' = cack s -> blocked s' = blocked s ->
-            forall k1, Rx [] (out s) s' k1 ->
-            R s' (k01_ev k1 (Ret (ntag s) (mid_next (last_mid s)) q rc))).
-  { intros st rc s' Hrc E1 E2 E3 E4 E5 k1 [Xok Xl Xd Xq0 Xq0q Xe Xb Xc Xw].
-    cbn [k01_ev]. rewrite Hgt, Hrc. cbn [andb]. unfold R.
-    constructor; cbn [k1_ok k1_live k1_done k1_q0 k1_est k1_blk k1_onconn k1_wr]; try assumption.
-    rewrite Xl, E1, map_app. reflexivity. }
-  assert (Hx0 : forall st s', out s' = out s ++ [mkO (mid_next (last_mid s)) q st false (ntag s)] -> ntag s' = ntag s + 1 ->
-            sock s' = sock s -> cack s' = cack s -> blocked s' = blocked s -> outq s' = outq s ->
-            (is_wait (mkO (mid_next (last_mid s)) q st false (ntag s)) = true -> sock s = true -> False) ->
-            Rx [] (out s) s' k).
-  { intros st s' E1 E2 E3 E4 E5 E6 Hnw.
-    constructor; rewrite ?E1, ?E2, ?E3, ?E4, ?E5, ?E6; try assumption.
-    - intros t Ht. destruct (Rd t Ht). split; [lia|]. rewrite tags_app. intros H'. apply in_app_or in H' as [H'|[H'|[]]]; [tauto | cbn in H'; lia].
-    - intros t Ht. destruct (Rq0 t Ht). split; [lia|]. rewrite tags_app. intros H'. apply in_app_or in H' as [H'|[H'|[]]]; [tauto | cbn in H'; lia].
-    - intros Hs m Hm Hw. apply in_app_or in Hm as [Hm|[<-|[]]]; [apply Rc; assumption | exfalso; exact (Hnw Hw Hs)].
-    - intros Hs m Hm Hw. apply in_app_or in Hm as [Hm|[<-|[]]]; [apply Rw; assumption | exfalso; exact (Hnw Hw Hs)]. }
-  destruct (window_free c (inflight s)).
-  - destruct (sock s) eqn:Hs.
-    + (* stored in a wait state and handed over *)
-      set (S1 := with_out _ _ _). set (x := mkQ _ _).
-      assert (Hi1 : can_write S1 = true -> outq S1 = []) by (apply (idle_ext s); [cbn; congruence | reflexivity | reflexivity | exact Hi]).
-      assert (Hn : noq0 x) by exact Eq0.
-      assert (Hqt : qtags [x] = [ntag s]).
-      { unfold qtags, qtag, ptag. cbn [flat_map x q_pkt]. rewrite Eq0. reflexivity. }
-      assert (HX : Rx [ntag s] (out s) S1 k).
-      { constructor; cbn [out ntag sock cack blocked outq with_out S1]; try assumption.
-        - intros t Ht. destruct (Rd t Ht). split; [lia|]. rewrite tags_app. intros H'. apply in_app_or in H' as [H'|[H'|[]]]; [tauto | cbn in H'; lia].
-        - intros t Ht. destruct (Rq0 t Ht). split; [lia|]. rewrite tags_app. intros H'. apply in_app_or in H' as [H'|[H'|[]]]; [tauto | cbn in H'; lia].
-        - intros _ m Hm Hw. apply in_app_or in Hm as [Hm|[<-|[]]]; [left; apply (r_conn _ _ HR Hs); assumption | right; left; reflexivity].
-        - intros _ m Hm Hw. apply in_app_or in Hm as [Hm|[<-|[]]]; [|right; right; left; reflexivity].
-          destruct (r_wr _ _ HR Hs m Hm Hw) as [H|H]; [left; exact H | right; left; exact H]. }
-      pose proof (Rx_hand_all [ntag s] (out s) S1 k [x] HX Hi1 ltac:(constructor; [exact Hn|constructor])
-                    ltac:(rewrite Hqt; apply incl_refl)) as HX'.
-      rewrite (send_hand_all S1 x). cbn [fst snd]. split.
-      * rewrite fold_left_app. cbn [fold_left].
-        eapply (Hstore (wait_of q) 0); try reflexivity. exact HX'.
-      * apply ok1_q0. unfold completed_tags. rewrite flat_map_app. cbn [flat_map app]. rewrite app_nil_r.
-        fold (completed_tags (snd (hand_all (conn S1) (can_write S1) (outq S1) [x]))).
-        rewrite (hand_all_completed _ _ _ _ Hi1 ltac:(constructor; [exact Hn|constructor])). intros t [].
-    + cbn [fst snd]. split; [|reflexivity]. cbn [fold_left].
-      eapply (Hstore MsPublish 4); try reflexivity.
-      apply (Hx0 MsPublish); try reflexivity. intros _ H. discriminate.
-  - cbn [fst snd]. split; [|reflexivity]. cbn [fold_left].
-    eapply (Hstore MsQueued 0); try reflexivity.
-    apply (Hx0 MsQueued); try reflexivity. intros H _. discriminate.
-Qed.
-
-(* ---------------------------------------------------------------- reconnect(), connection loss, ack(), block *)
-Lemma reset1_lof cl m : lof (reset1 cl m) = lof m.
-Proof. unfold lof. rewrite reset1_tag, reset1_mid, reset1_qos. reflexivity. Qed.
-
-Lemma reset_out_facts c cl : forall l infl,
-  map lof (fst (reset_out_list c cl infl l)) = map lof l /\
-  Forall (fun m => is_wait m = false) (fst (reset_out_list c cl infl l)).
-Proof.
-  induction l as [|m l IH]; intros infl; cbn [reset_out_list].
-  - split; [reflexivity|constructor].
-  - destruct (window_free c infl).
-    + destruct (IH (infl + 1)) as [H1 H2]. destruct (reset_out_list c cl (infl + 1) l) as [r n].
-      cbn [fst map] in *. split; [rewrite reset1_lof, H1; reflexivity|].
-      constructor; [apply reset1_notwait|assumption].
-    + destruct (IH infl) as [H1 H2]. destruct (reset_out_list c cl infl l) as [r n].
-      cbn [fst map] in *. split; [rewrite H1; reflexivity|].
-      constructor; [reflexivity|assumption].
-Qed.
-
-(* reconnect() reports queued QoS 0 publishes as lost: known QoS 0 tags, not C01's business *)
-Lemma lost_fold : forall q k, q0known k q -> fold_left k01_ev (flat_map lost_evs q) k = k.
-Proof.
-  induction q as [|x q IH]; intros k Hq; [reflexivity|].
-  change (x :: q) with ([x] ++ q) in Hq. apply q0known_app in Hq as [Hq1 Hq2].
-  cbn [flat_map]. rewrite fold_left_app.
-  assert (E : fold_left k01_ev (lost_evs x) k = k).
-  { unfold lost_evs. destruct (q_pkt x) as [|m qs d t| | | |] eqn:Ex; try reflexivity.
-    destruct (qs =? 0) eqn:E0; [|reflexivity]. destruct (q_info x); [|reflexivity].
-    cbn [andb fold_left k01_ev].
-    assert (Hin : zin t (k1_q0 k) = true).
-    { apply Hq1. unfold q0tags. cbn [flat_map]. unfold q0tag. rewrite Ex, E0. left. reflexivity. }
-    rewrite Hin. cbv iota. rewrite Hin. reflexivity. }
-  rewrite E. apply IH. exact Hq2.
-Qed.
-
-Lemma lost_completed : forall q t, In t (completed_tags (flat_map lost_evs q)) -> In t (q0tags q).
-Proof.
-  induction q as [|x q IH]; intros t Ht; [destruct Ht|]. cbn [flat_map] in Ht.
-  unfold completed_tags in Ht. rewrite flat_map_app in Ht. fold (completed_tags (lost_evs x)) in Ht.
-  fold (completed_tags (flat_map lost_evs q)) in Ht.
-  unfold q0tags. cbn [flat_map]. apply in_or_app. apply in_app_or in Ht as [Ht|Ht]; [left | right; apply IH; exact Ht].
-  unfold lost_evs, q0tag in *. destruct (q_pkt x) as [|m qs d t'| | | |]; try destruct Ht.
-  destruct (qs =? 0); [|destruct Ht]. destruct (q_info x); [|destruct Ht]. cbn in Ht. destruct Ht as [<-|[]]. left. reflexivity.
-Qed.
-
-Lemma completed_app a b : completed_tags (a ++ b) = completed_tags a ++ completed_tags b.
-Proof. unfold completed_tags. apply flat_map_app. Qed.
-
-Lemma good_reconnect c s ok k : R s k ->
-  Good (fst (do_reconnect c s ok)) k (snd (do_reconnect c s ok)).
-Proof.
-  intros [Rok Rl Rd Rq0 Rq0q Re Rb Rc Rw].
-  unfold do_reconnect.
-  destruct (reset_out_facts c (clean_now c s) (out s) 0) as [H1 H2].
-  destruct (reset_out_list c (clean_now c s) 0 (out s)) as [o n]. cbn [fst] in *.
-  assert (Ht : tags o = tags (out s)) by (rewrite !tags_lof, H1; reflexivity).
-  assert (Hq' : q0known (mkK01 (k1_live k) (k1_q0 k) (k1_done k) (k1_onconn k) (k1_wr k) false (k1_blk k) (k1_ok k)) (outq s))
-    by exact Rq0q.
-  destruct ok; cbn [fst snd].
-  - assert (Hk : fold_left k01_ev (Reconn :: flat_map lost_evs (outq s) ++
-                    [SockOpened (conn s + 1); Handed (conn s + 1) PConnect; Tx (conn s + 1) PConnect]) k
-                 = mkK01 (k1_live k) (k1_q0 k) (k1_done k) [] [] false false (k1_ok k)).
-    { cbn [fold_left k01_ev]. rewrite fold_left_app, (lost_fold _ _ Hq'). reflexivity. }
-    split.
-    + rewrite Hk. unfold R. constructor; cbn -[tags]; rewrite ?Ht; try assumption; try reflexivity; try discriminate;
-        try (symmetry; assumption).
-      * rewrite H1. exact Rl.
-      * intros t [].
-      * intros _ m Hm Hw. pose proof (proj1 (Forall_forall _ _) H2 m Hm). congruence.
-      * intros _ m Hm Hw. pose proof (proj1 (Forall_forall _ _) H2 m Hm). congruence.
-    + apply ok1_q0. intros t Ht'. rewrite Hk. cbn [k1_q0]. apply Rq0q. apply lost_completed.
-      cbn [completed_tags flat_map app] in Ht'. fold (completed_tags (flat_map lost_evs (outq s) ++
-                    [SockOpened (conn s + 1); Handed (conn s + 1) PConnect; Tx (conn s + 1) PConnect])) in Ht'.
-      rewrite completed_app in Ht'. cbn in Ht'. rewrite app_nil_r in Ht'. exact Ht'.
-  - assert (Hk : fold_left k01_ev (Reconn :: flat_map lost_evs (outq s) ++ [Raised]) k
-                 = mkK01 (k1_live k) (k1_q0 k) (k1_done k) (k1_onconn k) (k1_wr k) false (k1_blk k) (k1_ok k)).
-    { cbn [fold_left k01_ev]. rewrite fold_left_app, (lost_fold _ _ Hq'). reflexivity. }
-    split.
-    + rewrite Hk. unfold R. constructor; cbn -[tags]; rewrite ?Ht; try assumption; try reflexivity; try discriminate;
-        try (symmetry; assumption).
-      * rewrite H1. exact Rl.
-      * intros t [].
-    + apply ok1_q0. intros t Ht'. rewrite Hk. cbn [k1_q0]. apply Rq0q. apply lost_completed.
-      cbn [completed_tags flat_map app] in Ht'. fold (completed_tags (flat_map lost_evs (outq s) ++ [Raised])) in Ht'.
-      rewrite completed_app in Ht'. cbn in Ht'. rewrite app_nil_r in Ht'. exact Ht'.
-Qed.
-
-Lemma good_connlost c s k : R s k ->
-  Good (fst (step c s OConnLost)) k (snd (step c s OConnLost)).
-Proof.
-  intros HR. cbn [step]. destruct (sock s) eqn:Hs; cbn [fst snd]; [|apply good_nil; assumption].
-  destruct HR as [Rok Rl Rd Rq0 Rq0q Re Rb Rc Rw].
-  split; [|reflexivity]. cbn [fold_left k01_ev]. unfold R.
-  constructor; cbn; try assumption; try discriminate.
-Qed.
-
-Lemma good_ack c s mid q k : Inv c s -> R s k ->
-  Good (fst (do_ack c s mid q)) k (snd (do_ack c s mid q)).
-Proof.
-  intros I HR. unfold do_ack. destruct (c_manual c); [|apply good_nil; assumption].
-  destruct (q =? 1); [apply (good_send_plain s k _ []); [exact Logic.I | reflexivity | exact (inv_qidle _ _ I) | exact HR]|].
-  destruct (q =? 2); [apply (good_send_plain s k _ []); [exact Logic.I | reflexivity | exact (inv_qidle _ _ I) | exact HR]|].
-  apply good_nil; assumption.
-Qed.
-
-Lemma good_block s b k : R s k -> Good (fst (do_block s b)) k (snd (do_block s b)).
-Proof.
-  intros HR. unfold do_block. destruct (sock s) eqn:Hs; [|apply good_nil; assumption].
-  destruct HR as [Rok Rl Rd Rq0 Rq0q Re Rb Rc Rw].
-  destruct b; cbn [fst snd lw].
-  - split; [|reflexivity]. cbn [fold_left k01_ev]. unfold R. constructor; cbn; try assumption. reflexivity.
-  - assert (Hq' : q0known (k01_ev k (Blk false)) (outq s)) by exact Rq0q.
-    split.
-    + cbn [fold_left]. rewrite (flush_fold _ _ _ Hq'). unfold R.
-      constructor; cbn [k1_ok k1_live k1_done k1_q0 k1_est k1_blk k1_onconn k1_wr set_wr k01_ev
-                        out ntag cack sock blocked outq with_q with_blocked]; try assumption.
-      * intros t [].
-      * reflexivity.
-      * intros Hs' m Hm Hw. left. apply zadds_In. destruct (Rw Hs' m Hm Hw) as [H|[H|[]]]; [left|right]; exact H.
-    + apply ok1_q0. intros t Ht. apply q0_mono. cbn [completed_tags flat_map app] in Ht.
-      fold (completed_tags (flush_evs (conn s) (outq s))) in Ht. apply Rq0q. apply (flush_completed _ _ _ Ht).
-Qed.
-
-(* ---------------------------------------------------------------- CONNACK *)
-Lemma cl1_lof m : lof (cl1 m) = lof m.
-Proof. unfold lof. rewrite cl1_tag, cl1_mid. unfold cl1. destruct (o_st m); try reflexivity. destruct (o_qos m =? 2); reflexivity. Qed.
-
-Lemma cl_pk_qtags m : qos_okb m = true -> is_queued m = false -> is_wait m = false -> qtags (cl_pk m) = [o_tag m].
-Proof.
-  intros Hq Hn Hw. pose proof (qos_ok_nz m Hq) as H0. unfold cl_pk, qtags, qtag, ptag, is_queued, is_wait, qos_okb in *.
-  destruct (o_st m); try discriminate; cbn [flat_map q_pkt pub_pkt rel_pkt app].
-  - rewrite H0. reflexivity.
-  - destruct (o_qos m =? 1) eqn:E1; [discriminate|]. apply andb_true_iff in Hq as [Hq _]. rewrite Hq. reflexivity.
-Qed.
-
-Lemma qtags_flat_map_in {A} (f : A -> list qpkt) : forall l a t, In a l -> In t (qtags (f a)) -> In t (qtags (flat_map f l)).
-Proof.
-  induction l as [|b l IH]; intros a t Ha Ht; [destruct Ha|]. cbn [flat_map]. rewrite qtags_app. apply in_or_app.
-  destruct Ha as [->|Ha]; [left; exact Ht | right; eapply IH; eassumption].
-Qed.
-
-Lemma good_connack c s rc r k : cfg_ok c = true -> Inv c s -> sock s = true -> R s k ->
-  Good (fst (do_rx c s (IConnack rc) r)) k (snd (do_rx c s (IConnack rc) r)).
-Proof.
-  intros Hcfg I Hs HR. pose proof (inv_qidle _ _ I) as Hi.
-  pose proof HR as [Rok Rl Rd Rq0 Rq0q Re Rb Rc Rw].
-  destruct (rc =? 0) eqn:Erc.
-  2:{ unfold do_rx. rewrite Hs. cbn [negb]. rewrite Erc. cbn [fst snd]. split; [|reflexivity].
-      cbn [fold_left k01_ev]. rewrite Erc. unfold R.
-      constructor; cbn; try assumption; try reflexivity; try discriminate. }
-  assert (rc = 0) by lia. subst rc.
-  destruct (connack_char c s r I Hs) as (C & Q & So & Sh & E). rewrite E. cbn [fst snd]. clear E.
-  set (H := flat_map cl_pk C).
-  assert (HH : Forall noq0 H).
-  { apply Forall_flat_map. apply Forall_forall. intros x Hx. apply noq0_cl_pk.
-    apply (proj1 (Forall_forall _ _) (inv_qos _ _ I)). rewrite So. apply in_or_app. left. exact Hx. }
-  set (s1 := with_out (connack_s1 s) (map cl1 C ++ Q) (inflight s)).
-  set (k1 := k01_ev k (Inp (IConnack 0))).
-  assert (Hlof : map lof (map cl1 C ++ Q) = map lof (out s)).
-  { rewrite So, !map_app, map_map. f_equal. apply map_ext. apply cl1_lof. }
-  assert (Htags : tags (map cl1 C ++ Q) = tags (out s)) by (rewrite !tags_lof, Hlof; reflexivity).
-  assert (HX : Rx (qtags H) (map cl1 C ++ Q) s1 k1).
-  { constructor; cbn [k1 k01_ev k1_ok k1_live k1_done k1_q0 k1_est k1_blk k1_onconn k1_wr
-                      out ntag cack sock blocked outq with_out connack_s1 s1]; rewrite ?Htags; try assumption.
-    - rewrite Hlof. exact Rl.
-    - reflexivity.
-    - intros _ m' Hm' Hw'. apply in_app_or in Hm' as [Hm'|Hm'].
-      + apply in_map_iff in Hm' as (m & <- & Hm). destruct (is_wait m) eqn:Hw.
-        * left. rewrite cl1_tag. apply (r_conn _ _ HR Hs); [rewrite So; apply in_or_app; left; exact Hm | exact Hw].
-        * right. rewrite cl1_tag. apply (qtags_flat_map_in cl_pk C m _ Hm).
-          rewrite cl_pk_qtags; [left; reflexivity | | | exact Hw].
-          -- apply (proj1 (Forall_forall _ _) (inv_qos _ _ I)). rewrite So. apply in_or_app. left. exact Hm.
-          -- exact (proj1 (Forall_forall _ _) (sh_C _ _ _ _ _ Sh) m Hm).
-      + exfalso. pose proof (proj1 (Forall_forall _ _) (sh_Q _ _ _ _ _ Sh) m' Hm') as Hq. cbn beta in Hq.
-        apply wait_nq in Hw'. congruence.
-    - intros _ m' Hm' Hw'. apply in_app_or in Hm' as [Hm'|Hm'].
-      + apply in_map_iff in Hm' as (m & <- & Hm). destruct (is_wait m) eqn:Hw.
-        * rewrite cl1_tag. destruct (r_wr _ _ HR Hs m) as [H'|H']; [rewrite So; apply in_or_app; left; exact Hm | exact Hw | left; exact H' | right; left; exact H'].
-        * right. right. rewrite cl1_tag. apply (qtags_flat_map_in cl_pk C m _ Hm).
-          rewrite cl_pk_qtags; [left; reflexivity | | | exact Hw].
-          -- apply (proj1 (Forall_forall _ _) (inv_qos _ _ I)). rewrite So. apply in_or_app. left. exact Hm.
-          -- exact (proj1 (Forall_forall _ _) (sh_C _ _ _ _ _ Sh) m Hm).
-      + exfalso. pose proof (proj1 (Forall_forall _ _) (sh_Q _ _ _ _ _ Sh) m' Hm') as Hq. cbn beta in Hq.
-        apply wait_nq in Hw'. congruence. }
-  assert (Hi1 : can_write s1 = true -> outq s1 = []) by exact Hi.
-  pose proof (Rx_hand_all _ _ s1 k1 H HX Hi1 HH (incl_refl _)) as HX'.
-  split.
-  - cbn [fold_left]. exact HX'.
-  - apply ok1_q0. intros t Ht. cbn [completed_tags flat_map app] in Ht.
-    fold (completed_tags (snd (hand_all (conn s) (can_write s) (outq s) H))) in Ht.
-    rewrite (hand_all_completed _ _ _ _ Hi HH) in Ht. destruct Ht.
-Qed.
-
-(* ---------------------------------------------------------------- the final acknowledgement *)
-Definition final_pkt (m : omsg) (p : inpkt) : Prop :=
-  (p = IPuback (o_mid m) /\ o_qos m = 1) \/ (p = IPubcomp (o_mid m) /\ o_qos m = 2).
-
-Lemma rel1_lof m : lof (rel1 m) = lof m.
-Proof. reflexivity. Qed.
-
-Lemma rel_pk_qtags : forall L, Forall (fun m => qos_okb m = true) L -> qtags (map rel_pk L) = tags L.
-Proof.
-  induction L as [|m L IH]; intros H; [reflexivity|]. inversion H; subst.
-  unfold qtags, tags in *. cbn [map flat_map]. rewrite IH by assumption.
-  unfold qtag, rel_pk, pub_pkt, ptag. cbn [q_pkt]. rewrite (qos_ok_nz m) by assumption. reflexivity.
-Qed.
-
-Lemma good_on_publish c s m p k : cfg_ok c = true -> Inv c s -> sock s = true -> cack s = true ->
-  In m (out s) -> is_wait m = true -> final_pkt m p -> R s k ->
-  Good (fst (do_on_publish c s m)) k (Inp p :: snd (do_on_publish c s m)).
-Proof.
-  intros Hcfg I Hs Hck Hin Hw Hp HR. pose proof (inv_qidle _ _ I) as Hi.
-  pose proof HR as [Rok Rl Rd Rq0 Rq0q Re Rb Rc Rw].
-  destruct (on_publish_char c Hcfg s m (inv_m _ _ I) Hs Hck Hin Hw)
-    as (C1 & C2 & Q & j & n & So & Se' & SQ & Hj & Hn & Hle & Hfull & E).
-  rewrite E. cbn [fst snd]. clear E.
-  set (L := firstn j Q). set (o' := (C1 ++ C2) ++ map rel1 L ++ skipn j Q).
-  assert (HLq : Forall (fun x => qos_okb x = true) L).
-  { apply Forall_forall. intros x Hx. apply (proj1 (Forall_forall _ _) (inv_qos _ _ I)). rewrite So.
-    apply in_or_app. right. rewrite <- (firstn_skipn j Q). apply in_or_app. left. exact Hx. }
-  assert (HH : Forall noq0 (map rel_pk L)).
-  { apply Forall_map. eapply Forall_impl; [|exact HLq]. intros a. apply noq0_rel_pk. }
-  (* tags: the removed message is nowhere else *)
-  pose proof (SSorted_NoDup _ (inv_sorted _ _ I)) as Hnd. rewrite So in Hnd.
-  assert (Hlof' : map lof o' = map lof ((C1 ++ C2) ++ Q)).
-  { unfold o'. rewrite !map_app, map_map. change (map (fun x => lof (rel1 x)) L) with (map lof L).
-    rewrite <- (map_app lof L). unfold L. rewrite (firstn_skipn j Q). reflexivity. }
-  assert (Htags' : tags o' = tags (C1 ++ C2) ++ tags Q).
-  { rewrite tags_lof, Hlof', <- tags_lof, tags_app. reflexivity. }
-  assert (Hnotin : ~ In (o_tag m) (tags o')).
-  { rewrite Htags'. rewrite !tags_app in Hnd. cbn [tags map] in Hnd. rewrite <- app_assoc in Hnd. cbn [app] in Hnd.
-    pose proof (NoDup_remove_2 _ _ _ Hnd) as H. rewrite tags_app, <- app_assoc. exact H. }
-  assert (Hsubt : forall t, In t (tags o') -> In t (tags (out s))).
-  { intros t Ht. rewrite Htags' in Ht. rewrite So, !tags_app. cbn [tags map]. rewrite tags_app in Ht.
-    apply in_app_or in Ht as [Ht|Ht]; [|apply in_or_app; right; exact Ht].
-    apply in_or_app. left. apply in_app_or in Ht as [Ht|Ht]; apply in_or_app; [left | right; right]; exact Ht. }
-  assert (Htm : 0 <= o_tag m < ntag s) by exact (proj1 (Forall_forall _ _) (inv_tags _ _ I) m Hin).
-  assert (Hintag : In (o_tag m) (tags (out s))) by (unfold tags; apply in_map; exact Hin).
-  assert (Hq0f : zin (o_tag m) (k1_q0 k) = false).
-  { apply zin_of_notIn. intros H. destruct (Rq0 _ H) as [_ H']. exact (H' Hintag). }
-  assert (Hhas : lhas_tag (o_tag m) (k1_live k) = true).
-  { rewrite Rl. apply lhas_tag_In. rewrite <- tags_lof. exact Hintag. }
-  assert (Hnd' : zin (o_tag m) (k1_done k) = false).
-  { apply zin_of_notIn. intros H. destruct (Rd _ H) as [_ H']. exact (H' Hintag). }
-  assert (Hrem : lrem_tag (o_tag m) (k1_live k) = map lof o').
-  { rewrite Rl, Hlof', So, <- !app_assoc, !map_app. cbn [map app].
-    rewrite !tags_app in Hnd. cbn [tags map] in Hnd. rewrite <- app_assoc in Hnd. cbn [app] in Hnd.
-    pose proof (NoDup_remove_2 _ _ _ Hnd) as H.
-    apply lrem_tag_split; [| |reflexivity]; rewrite <- ?map_app, <- tags_lof; intros H'; apply H; apply in_or_app;
-      [left; exact H' | right; rewrite tags_app in H'; exact H']. }
-  set (k1 := mkK01 (map lof o') (k1_q0 k) (k1_done k ++ [o_tag m]) (k1_onconn k) (k1_wr k) (k1_est k) (k1_blk k) true).
-  assert (Hk : fold_left k01_ev [Inp p; CbPublish (o_mid m) (o_tag m); Published (o_tag m)] k = k1).
-  { destruct Hp as [[-> _]|[-> _]]; cbn [fold_left k01_ev]; rewrite Hq0f; cbn [k1_q0 k1_live k1_done k1_ok];
-      rewrite Hq0f, Hhas, Hnd', Hrem, Rok; reflexivity. }
-  set (s1 := with_out s o' n).
-  assert (HX : Rx (tags L) o' s1 k1).
-  { constructor; cbn [k1 k1_ok k1_live k1_done k1_q0 k1_est k1_blk k1_onconn k1_wr
-                      out ntag cack sock blocked outq with_out s1]; try assumption; try reflexivity.
-    - intros t Ht. apply in_app_or in Ht as [Ht|[<-|[]]].
-      + destruct (Rd _ Ht) as [Ha Hb]. split; [assumption|]. intros H. apply Hb. apply Hsubt. exact H.
-      + split; [lia | exact Hnotin].
-    - intros t Ht. destruct (Rq0 _ Ht) as [Ha Hb]. split; [assumption|]. intros H. apply Hb. apply Hsubt. exact H.
-    - intros _ x Hx Hwx. unfold o' in Hx. apply in_app_or in Hx as [Hx|Hx].
-      + left. apply (r_conn _ _ HR Hs); [|exact Hwx]. rewrite So. apply in_or_app. left.
-        apply in_app_or in Hx as [Hx|Hx]; apply in_or_app; [left | right; right]; exact Hx.
-      + apply in_app_or in Hx as [Hx|Hx].
-        * right. apply in_map_iff in Hx as (y & <- & Hy). change (o_tag (rel1 y)) with (o_tag y). unfold tags. apply in_map. exact Hy.
-        * exfalso. pose proof (proj1 (Forall_forall _ _) (Forall_skipn _ j _ SQ) x Hx) as Hqx. cbn beta in Hqx.
-          apply wait_nq in Hwx. congruence.
-    - intros _ x Hx Hwx. unfold o' in Hx. apply in_app_or in Hx as [Hx|Hx].
-      + destruct (r_wr _ _ HR Hs x) as [H|H]; [|exact Hwx | left; exact H | right; left; exact H].
-        rewrite So. apply in_or_app. left.
-        apply in_app_or in Hx as [Hx|Hx]; apply in_or_app; [left | right; right]; exact Hx.
-      + apply in_app_or in Hx as [Hx|Hx].
-        * right. right. apply in_map_iff in Hx as (y & <- & Hy). change (o_tag (rel1 y)) with (o_tag y). unfold tags. apply in_map. exact Hy.
-        * exfalso. pose proof (proj1 (Forall_forall _ _) (Forall_skipn _ j _ SQ) x Hx) as Hqx. cbn beta in Hqx.
-          apply wait_nq in Hwx. congruence. }
-  assert (Hi1 : can_write s1 = true -> outq s1 = []) by exact Hi.
-  pose proof (Rx_hand_all _ _ s1 k1 (map rel_pk L) HX Hi1 HH ltac:(rewrite (rel_pk_qtags L HLq); apply incl_refl)) as HX'.
-  change (Inp p :: CbPublish (o_mid m) (o_tag m) :: Published (o_tag m) :: snd (hand_all (conn s) (can_write s) (outq s) (map rel_pk L)))
-    with ([Inp p; CbPublish (o_mid m) (o_tag m); Published (o_tag m)] ++ snd (hand_all (conn s) (can_write s) (outq s) (map rel_pk L))).
-  split.
-  - rewrite fold_left_app, Hk. exact HX'.
-  - unfold ok1_of. rewrite completed_app, (hand_all_completed _ _ _ _ Hi HH), app_nil_r.
-    assert (Hfin : existsb (fun m0 => (l_tag m0 =? o_tag m) &&
-                     existsb (final_ack_of m0) ([Inp p; CbPublish (o_mid m) (o_tag m); Published (o_tag m)] ++
-                                                snd (hand_all (conn s) (can_write s) (outq s) (map rel_pk L)))) (k1_live k) = true).
-    { apply existsb_exists. exists (lof m). split; [rewrite Rl; apply in_map; assumption|].
-      cbn [lof l_tag]. rewrite Z.eqb_refl. cbn [andb app existsb].
-      destruct Hp as [[-> Hq]|[-> Hq]]; cbn [final_ack_of lof l_qos l_mid]; apply orb_true_iff; left; lia. }
-    cbn [app] in Hfin.
-    destruct Hp as [[-> _]|[-> _]]; cbn [completed_tags flat_map app forallb]; rewrite Hfin, !orb_true_r; reflexivity.
-Qed.
-
-(* ---------------------------------------------------------------- PUBREC *)
-Lemma update_mid_facts mid f : (forall m, lof (f m) = lof m) -> forall l,
-  map lof (update_mid mid f l) = map lof l /\
-  (forall x, In x (update_mid mid f l) -> In x l \/ exists m, find_mid mid l = Some m /\ x = f m).
-Proof.
-  intros Hf. induction l as [|m l [IH1 IH2]]; cbn [update_mid find_mid].
-  - split; [reflexivity|]. intros x [].
-  - destruct (o_mid m =? mid).
-    + cbn [map]. split; [rewrite Hf; reflexivity|].
-      intros x [<-|Hx]; [right; exists m; split; reflexivity|left; right; assumption].
-    + cbn [map]. split; [rewrite IH1; reflexivity|].
-      intros x [<-|Hx]; [left; left; reflexivity|].
-      destruct (IH2 x Hx) as [H|H]; [left; right; assumption|right; assumption].
-Qed.
-
-Lemma good_pubrec c s mid m k : Inv c s -> sock s = true -> find_mid mid (out s) = Some m -> R s k ->
-  Good (fst (send (with_out s (update_mid mid (fun m0 => set_st m0 MsWaitPubcomp) (out s)) (inflight s))
-                  (mkQ (PPubrel mid (o_tag m)) false))) k
-       (Inp (IPubrec mid) :: snd (send (with_out s (update_mid mid (fun m0 => set_st m0 MsWaitPubcomp) (out s)) (inflight s))
-                                       (mkQ (PPubrel mid (o_tag m)) false))).
-Proof.
-  intros I Hs Ef HR. pose proof (inv_qidle _ _ I) as Hi.
-  pose proof HR as [Rok Rl Rd Rq0 Rq0q Re Rb Rc Rw].
-  destruct (update_mid_facts mid (fun m0 => set_st m0 MsWaitPubcomp) (fun _ => eq_refl) (out s)) as [H1 H2].
-  set (o' := update_mid mid (fun m0 => set_st m0 MsWaitPubcomp) (out s)) in *.
-  assert (Ht : tags o' = tags (out s)) by (rewrite !tags_lof, H1; reflexivity).
-  set (s1 := with_out s o' (inflight s)). set (x := mkQ (PPubrel mid (o_tag m)) false).
-  assert (HX : Rx [o_tag m] o' s1 k).
-  { constructor; cbn [out ntag cack sock blocked outq with_out s1]; rewrite ?Ht; try assumption.
-    - rewrite H1. exact Rl.
-    - intros _ y Hy Hwy. destruct (H2 y Hy) as [H|(m' & Hm' & ->)].
-      + left. apply (r_conn _ _ HR Hs); assumption.
-      + right. rewrite Ef in Hm'. inversion Hm'. left. reflexivity.
-    - intros _ y Hy Hwy. destruct (H2 y Hy) as [H|(m' & Hm' & ->)].
-      + destruct (r_wr _ _ HR Hs y H Hwy) as [H'|H']; [left; exact H' | right; left; exact H'].
-      + right. right. rewrite Ef in Hm'. inversion Hm'. left. reflexivity. }
-  assert (Hi1 : can_write s1 = true -> outq s1 = []) by exact Hi.
-  assert (HH : Forall noq0 [x]) by (repeat constructor).
-  pose proof (Rx_hand_all _ _ s1 k [x] HX Hi1 HH ltac:(apply incl_refl)) as HX'.
-  rewrite (send_hand_all s1 x). cbn [fst snd]. split.
-  - cbn [fold_left k01_ev]. exact HX'.
-  - apply ok1_q0. intros t Ht'. cbn [completed_tags flat_map app] in Ht'.
-    fold (completed_tags (snd (hand_all (conn s1) (can_write s1) (outq s1) [x]))) in Ht'.
-    rewrite (hand_all_completed _ _ _ _ Hi1 HH) in Ht'. destruct Ht'.
-Qed.
-
-(* ---------------------------------------------------------------- one inbound packet *)
-Lemma good_rx c s p r k : cfg_ok c = true -> Inv c s -> conf_op c s (ORx p r) = true -> R s k ->
-  Good (fst (do_rx c s p r)) k (snd (do_rx c s p r)).
-Proof.
-  intros Hcfg I Hconf HR. pose proof (inv_qidle _ _ I) as Hi. destruct (sock s) eqn:Hs.
-  2: { unfold do_rx. rewrite Hs. cbn [negb fst snd]. apply good_nil; assumption. }
-  assert (Hreply : forall s1 x pre, out s1 = out s -> ntag s1 = ntag s -> sock s1 = sock s -> cack s1 = cack s ->
-            blocked s1 = blocked s -> outq s1 = outq s ->
-            match q_pkt x with PConnect | PPuback _ | PPubrec _ | PPubcomp _ => True | _ => False end ->
-            forallb neutral pre = true ->
-            Good (fst (let (s2, ev2) := send s1 x in (s2, pre ++ ev2))) k
-                 (snd (let (s2, ev2) := send s1 x in (s2, pre ++ ev2)))).
-  { intros s1 x pre E1 E2 E3 E4 E5 E6 Hx Hpre.
-    assert (HR1 : R s1 k) by (unfold R; rewrite E1; apply (Rx_ext [] (out s) s); assumption).
-    assert (Hi1 : can_write s1 = true -> outq s1 = []) by (apply (idle_ext s); assumption).
-    pose proof (good_send_plain s1 k x pre Hx Hpre Hi1 HR1) as H.
-    destruct (send s1 x) as [s2 ev]. exact H. }
-  destruct p as [rc|mid|mid|mid|mid|q mid tag].
-  - apply good_connack; assumption.
-  - unfold do_rx. rewrite Hs. cbn [negb]. cbn [conf_op] in Hconf. rewrite Hs in Hconf. cbn [negb] in Hconf.
-    destruct (find_mid mid (out s)) as [m|] eqn:Ef.
-    + pose proof (find_mid_In _ _ _ Ef) as [Hin Hmid]. subst mid.
-      apply andb_true_iff in Hconf as [Hck Hconf]. apply andb_true_iff in Hconf as [Hconf _].
-      apply andb_true_iff in Hconf as [Hq Hst].
-      assert (Hw : is_wait m = true) by (unfold is_wait; destruct (o_st m); try discriminate; reflexivity).
-      pose proof (good_on_publish c s m (IPuback (o_mid m)) k Hcfg I Hs Hck Hin Hw) as H.
-      destruct (do_on_publish c s m) as [s' ev]. cbn [fst snd] in *.
-      apply H; [left; split; [reflexivity|lia]|assumption].
-    + cbn [fst snd]. apply (good_neutral s s); auto.
-  - unfold do_rx. rewrite Hs. cbn [negb].
-    destruct (find_mid mid (out s)) as [m|] eqn:Ef; cbn [fst snd].
-    + pose proof (good_pubrec c s mid m k I Hs Ef HR) as H. destruct (send _ _) as [s2 ev]. exact H.
-    + apply (good_neutral s s); auto.
-  - unfold do_rx. rewrite Hs. cbn [negb]. cbn [conf_op] in Hconf. rewrite Hs in Hconf. cbn [negb] in Hconf.
-    destruct (find_mid mid (out s)) as [m|] eqn:Ef.
-    + pose proof (find_mid_In _ _ _ Ef) as [Hin Hmid]. subst mid.
-      apply andb_true_iff in Hconf as [Hck Hconf]. apply andb_true_iff in Hconf as [Hconf _].
-      apply andb_true_iff in Hconf as [Hq Hst].
-      assert (Hw : is_wait m = true) by (unfold is_wait; destruct (o_st m); try discriminate; reflexivity).
-      pose proof (good_on_publish c s m (IPubcomp (o_mid m)) k Hcfg I Hs Hck Hin Hw) as H.
-      destruct (do_on_publish c s m) as [s' ev]. cbn [fst snd] in *.
-      apply H; [right; split; [reflexivity|lia]|assumption].
-    + cbn [fst snd]. apply (good_neutral s s); auto.
-  - unfold do_rx, deliver. rewrite Hs. cbn [negb].
-    destruct (in_find mid (inm s)) as [tag|].
-    + destruct (r && negb (c_suppress c)); [|destruct (c_manual c)];
-        try solve [cbn [fst snd]; apply (good_neutral s); auto].
-      apply (Hreply _ _ [Inp (IPubrel mid); CbMessage mid 2 tag]); reflexivity || exact Logic.I.
-    + destruct (c_manual c); [cbn [fst snd]; apply (good_neutral s); auto|].
-      apply (Hreply _ _ [Inp (IPubrel mid)]); reflexivity || exact Logic.I.
-  - unfold do_rx, deliver. rewrite Hs. cbn [negb].
-    destruct (q =? 0).
-    + destruct (r && negb (c_suppress c)); cbn [fst snd]; apply (good_neutral s); auto.
-    + destruct (q =? 1).
-      * destruct (r && negb (c_suppress c)); [|destruct (c_manual c)];
-          try solve [cbn [fst snd]; apply (good_neutral s); auto].
-        apply (Hreply _ _ [Inp (IPublish q mid tag); CbMessage mid 1 tag]); reflexivity || exact Logic.I.
-      * pose proof (Hreply s (mkQ (PPubrec mid) false) [Inp (IPublish q mid tag)]
-                      eq_refl eq_refl eq_refl eq_refl eq_refl eq_refl Logic.I eq_refl) as H.
-        destruct (send s (mkQ (PPubrec mid) false)) as [s2 ev2]. cbn [fst snd] in *.
-        destruct H as [H1 H2]. split; [|exact H2]. unfold R in *. cbn [out with_inm].
-        apply (Rx_ext [] (out s2) s2); try reflexivity. exact H1.
-Qed.
-
-(* ---------------------------------------------------------------- every operation *)
-Lemma good_step c s o k : cfg_ok c = true -> Inv c s -> conf_op c s o = true -> R s k ->
-  Good (fst (step c s o)) k (snd (step c s o)).
-Proof.
-  intros Hcfg I Hc HR. destruct o as [q|ok| |p r|mid q|b].
-  - cbn [step]. apply good_publish; assumption.
-  - cbn [step]. apply good_reconnect; assumption.
-  - apply good_connlost; assumption.
-  - cbn [step]. apply good_rx; assumption.
-  - cbn [step]. apply good_ack; assumption.
-  - cbn [step]. apply good_block; assumption.
-Qed.
-
-Lemma R_step c s o k : cfg_ok c = true -> Inv c s -> conf_op c s o = true -> R s k ->
-  R (fst (step c s o)) (k01_op (c_max c) k (snd (step c s o))).
-Proof.
-  intros Hcfg I Hc HR. destruct (good_step c s o k Hcfg I Hc HR) as [HR' Hok1].
-  pose proof (inv_step c Hcfg s o I Hc) as I'.
-  pose proof (R_ok2 c _ _ I' HR') as Hok2.
-  rewrite k01_op_eq. cbv zeta. rewrite Hok1, Hok2, !andb_true_r.
-  destruct HR' as [Rok Rl Rd Rq0 Rq0q Re Rb Rc Rw]. unfold R. constructor; cbn; assumption.
-Qed.
-
-Lemma c01_from c : cfg_ok c = true -> forall ops s k,
-  Inv c s -> conforming_from c s ops = true -> R s k ->
-  k1_ok (fold_left (k01_op (c_max c)) (map snd (run_steps c s ops)) k) = true.
-Proof.
-  intros Hcfg. induction ops as [|o ops IH]; intros s k I Hc HR; cbn [run_steps conforming_from] in *.
-  - cbn. apply (x_ok _ _ _ _ HR).
-  - apply andb_true_iff in Hc as [Hc1 Hc2].
-    pose proof (inv_step c Hcfg s o I Hc1) as I'.
-    pose proof (R_step c s o k Hcfg I Hc1 HR) as HR'.
-    destruct (step c s o) as [s' ev]. cbn [fst snd map fold_left] in *.
-    apply IH; assumption.
-Qed.
-
-Lemma R_init c : R (init c) k01_init.
-Proof. unfold R. constructor; cbn; try reflexivity; try discriminate; try (intros; contradiction). intros t []. Qed.
-
-Theorem c01_proved : C01_stmt.
-Proof.
-  intros c ops Hcfg Hconf. unfold c01_ok, optrace.
-  apply c01_from; [assumption|apply inv_init; assumption|exact Hconf|apply R_init].
-Qed.
-
-Print Assumptions c01_proved.
+Print Assumptions c01_calm_proved.
